@@ -165,9 +165,20 @@ def check_eq_sym(prog: Program, res: Result) -> None:
             for pr in problems:
                 rule = "R-LABEL-FLOW" if ("refined" in pr or "label_hash" in pr
                                           or "keyed" in pr) else "R-EQ-SYM"
+                ctx = ["<specialised>"]
+                if ("flags (stereo" in pr or pr.startswith("bond_change=")) \
+                        and all(k_ not in kw or isinstance(
+                            kw[k_], ast.Constant)
+                            for k_ in ("stereo", "stereo_change",
+                                       "bond_change")) \
+                        and not any(k.arg is None for k in call.keywords):
+                    # every flag of the call is a literal after resolving the
+                    # class level configuration: the verdict does not depend
+                    # on helpers the method also calls
+                    ctx.append("<decided>")
                 res.bad(rule, f"{fi.short}: {pr[:80]}", fi.loc(call),
                         f"{inst}: {pr}", instance=inst + " " + pr[:40],
-                        context=["<specialised>"])
+                        context=ctx)
         else:
             res.ok("R-EQ-SYM", inst, fi.loc(call))
             res.ok("R-LABEL-FLOW", inst, fi.loc(call))
